@@ -121,7 +121,10 @@ def _rho0(nm):
 
 
 def rho0_of(nm):
-    return _rho0(nm).copy()          # the library never gets an array it could share between cases
+    r = _rho0(nm).copy()             # the library never gets an array it could share between cases
+    if nm == "B":
+        r = np.asfortranarray(r)     # one of the systems always hands over a column-major array (same values)
+    return r
 
 
 def bath_of(nm, kind):
